@@ -162,7 +162,12 @@ def get_ast(func):
     except (OSError, IOError):
         return None
     source = inspect.cleandoc('\n' + rawsource)
-    module = ast.parse(source)
+    try:
+        module = ast.parse(source)
+    except SyntaxError:
+        # eg. a method whose body holds a multi-line string with text at
+        # column 0: it cannot be dedented
+        return None
     node = module.body[0]
     if not isinstance(node, (ast.FunctionDef, ast.AsyncFunctionDef)):
         # eg. the statement a lambda was defined in
